@@ -1858,7 +1858,7 @@ func ruleR01_5(w *World, r *Report) {
 	// the names put into the sorted slice
 	nameOK, nNames := true, 0
 	bad := ""
-	forEachOwnInstr(fn, func(in ssa.Instruction) {
+	forEachInstr(fn, func(in ssa.Instruction) {
 		st, ok := in.(*ssa.Store)
 		if !ok {
 			return
